@@ -384,6 +384,20 @@ class PartialJoin(UnaryOperation):
                     first=self,
                     second=Projection(frozenset(self.applied_columns(current))),
                 )
+            case _ if (current.columns - current.target.columns) & self.fixed.columns:
+                # The operation adds columns that the fixed operand also has;
+                # joining upstream of it would make it add columns that are
+                # already present.
+                return UnaryCommutator(
+                    first=None,
+                    second=current.operation,
+                    done=False,
+                    messages=(
+                        f"{current.operation} adds columns "
+                        f"{set((current.columns - current.target.columns) & self.fixed.columns)} "
+                        "that are also present in the other join operand",
+                    ),
+                )
             case _:
                 if not self.columns_required <= current.target.columns:
                     return UnaryCommutator(
